@@ -336,11 +336,21 @@ pub fn execute(plan: &Plan, ctx: &mut Ctx) {
                     hupderr.set(if op.arg(0) == 0 { None } else { Some(op.arg(0) as u8) });
                     None
                 }
+                "CKUERR" => {
+                    clock.update_err.set(if op.arg(0) == 0 { None } else { Some(op.arg(0) as u8) });
+                    None
+                }
                 "HUPD" => {
                     if let Some(a) = adapter.as_mut() {
                         let before = hupdates.get();
+                        let cbefore = clock.updates.get();
                         let r = norm_unit(&a.update());
-                        let want = hupderr.get().map(Er::Other);
+                        // the history is updated first, then the clock; the first error is returned
+                        let want = hupderr.get().or(clock.update_err.get()).map(Er::Other);
+                        let clock_updates = clock.updates.get() - cbefore;
+                        if hupderr.get().is_none() && clock_updates != 1 {
+                            return Some(format!("adapter_update|clock|the adapter updated its clock {} times", clock_updates));
+                        }
                         if r != want || hupdates.get() != before + 1 {
                             return Some(format!("adapter_update|update|returned {:?} (history updated {} times), expected {:?}", r, hupdates.get() - before, want));
                         }
@@ -551,6 +561,9 @@ pub fn generate(prop: &str, tier: Tier, rng: &mut Rng, seed: u64, run: u64) -> P
                 }
                 if rng.chance(0.15) {
                     plan.push("HUERR", &[if rng.chance(0.5) { 0 } else { rng.range(1, 2) }]);
+                    if rng.chance(0.5) {
+                        plan.push("CKUERR", &[if rng.chance(0.5) { 0 } else { rng.range(1, 2) }]);
+                    }
                     plan.push("HUPD", &[]);
                 }
                 plan.push("HGET", &[]);
